@@ -16,7 +16,7 @@ ASSUMPTIONS = ['np.interp = NpInterp.npInterp (last j with xp[j] <= x, clamped e
                'compute_bin_edges = Binning.computeBinEdges',
                'licensed deviation: tau>10 early exit (transmission) / exp(-10) clamp (emission) couple columns; '
                'differences inside the C01/C02 band are accepted',
-               'k-table opacity path (scipy interp1d) is exercised by C20/C14, not modelled here']
+               'scipy interp1d(linear, fill_value=(first,last)) in KTable.opacity = np.interp per g-point (validated each run)']
 
 
 def native_grid(rng, n, kind):
@@ -234,10 +234,19 @@ def run_opacity(ctx):
         wn = np.sort(rng.choice(np.arange(100, 9000, 1.5), size=n, replace=False))
         tg = np.array([300.0, 900.0])
         pg = np.array([1.0, 1e5])
-        tab = 10 ** rng.uniform(-30, -18, size=(2, 2, n))
-        op = make_opacity(tg, pg, tab, wn, 'linear')
+        ng = 0 if k % 4 != 3 else int(rng.integers(1, 4))        # every 4th case: k-table layout (KTable.opacity)
+        if ng:
+            tab = 10 ** rng.uniform(-30, -18, size=(2, 2, n, ng))
+            w = rng.random(ng) + 0.1
+            op = make_opacity(tg, pg, tab, wn, 'linear', w / w.sum())
+        else:
+            tab = 10 ** rng.uniform(-30, -18, size=(2, 2, n))
+            op = make_opacity(tg, pg, tab, wn, 'linear')
         T, P = float(rng.uniform(300, 900)), float(10 ** rng.uniform(0, 5))
         native_vals = np.asarray(op.opacity(T, P))
+        if ng:
+            run_ktable_case(ctx, op, wn, native_vals, T, P, k, ng)
+            continue
         kind = ['own', 'other', 'mixed'][k % 3]
         if kind == 'own':
             i = int(rng.integers(0, n - 1))
@@ -276,6 +285,58 @@ def run_opacity(ctx):
                                   'interpolated opacity outside the neighbouring native values', case,
                                   dict(x=float(x), v=float(v), lo=float(lo), hi=float(hi)))
                     break
+
+
+def run_ktable_case(ctx, op, wn, native_vals, T, P, k, ng):
+    """KTable.opacity(T,P,wngrid): same grid handling as Opacity.opacity, per g-point (scipy interp1d, linear,
+    edge fill = np.interp's clamping)"""
+    rng = ctx.rng
+    n = len(wn)
+    kind = ['own', 'other', 'mixed', 'top-between'][(k // 4) % 4]
+    if kind == 'own':
+        i = int(rng.integers(0, n - 1)); j = int(rng.integers(i + 1, n)); req = wn[i:j + 1].copy()
+    elif kind == 'other':
+        req = np.sort(rng.uniform(wn[0], wn[-1], size=int(rng.integers(2, 12))))
+    elif kind == 'mixed':
+        i = int(rng.integers(0, n - 1))
+        req = np.sort(np.concatenate([wn[i:i + 2], rng.uniform(wn[0], wn[-1], size=2)]))
+    else:
+        # the request's top end strictly between two table points, its bottom on a table point
+        i = int(rng.integers(0, n - 2)); j = int(rng.integers(i + 1, n - 1))
+        req = np.sort(np.concatenate([wn[i:j + 1], [wn[j] + rng.uniform(0.05, 0.95) * (wn[j + 1] - wn[j])]]))
+    case = dict(kind='ktable:' + kind, wn=wn, req=req, T=T, P=P, ng=ng)
+    try:
+        out = np.asarray(op.opacity(T, P, req))
+    except Exception as e:
+        ctx.violation('ktable-opacity-raises', 'KTable.opacity raised for a request inside the native range: %r' % (e,), case)
+        return
+    ctx.case(key=('ktable-opacity', kind, n, len(req), ng), sample=dict(kind=kind, n=n, m=len(req), ng=ng),
+             bucket='opacity:ktable:' + kind)
+    for g in range(ng):
+        d = ctx.model().call('c13.opacity', C.L(wn), C.L(native_vals[:, g]), C.L(req))
+        mod = np.array(d.list())
+        ctx.check_close('KTable.opacity(wngrid) vs Grid.opacityOnGrid (per g-point)', out[:, g], mod, dict(case, g=g), rel=1e-12)
+        for x, v in zip(req, out[:, g]):
+            r = int(np.searchsorted(wn, x, side='right'))
+            if r == 0 or r == len(wn) or wn[r - 1] == x:
+                lo = hi = native_vals[min(max(r - 1, 0), len(wn) - 1), g]
+                if wn[min(max(r - 1, 0), len(wn) - 1)] == x and v != lo:
+                    ctx.violation('ktable-own-point-changed', 'k-coefficient at one of the table\'s own points was changed',
+                                  dict(case, g=g), dict(x=float(x), v=float(v), expected=float(lo)))
+                    return
+            else:
+                lo, hi = sorted((native_vals[r - 1, g], native_vals[r, g]))
+                t = (x - wn[r - 1]) / (wn[r] - wn[r - 1])
+                lin = native_vals[r - 1, g] + t * (native_vals[r, g] - native_vals[r - 1, g])
+                if not C.close(v, lin, rel=1e-9):
+                    ctx.violation('ktable-not-interpolated', 'k-coefficient between two table points is not their linear '
+                                  'interpolation (clamped or extrapolated)', dict(case, g=g),
+                                  dict(x=float(x), v=float(v), expected=float(lin)))
+                    return
+            if v < lo * (1 - 1e-12) or v > hi * (1 + 1e-12):
+                ctx.violation('ktable-outside-neighbours', 'k-coefficient outside the neighbouring table values',
+                              dict(case, g=g), dict(x=float(x), v=float(v), lo=float(lo), hi=float(hi)))
+                return
 
 
 def run(ctx):
